@@ -278,7 +278,7 @@ def c12_ragged(ctx):
 def o_roundtrip(ctx):
     impl = impl_mod()
     r = rng("c12rt")
-    alpha = ["a", "|", "\\", "n", "\n", " ", "\t", "é", "😀", "\\n", "x"]
+    alpha = ["a", "|", "\\", "n", "\n", " ", "\t", "é", "😀", "\\n", "x", "\ufdd0", "\ufdd1", "\ufdd0\ufdd0", "\ufdd1\ufdd1", "\ufffe", "\x00", "\x01", "\ue000"]
     vals = []
     for _ in range(S.n_for(3000, 60000)):
         v = "".join(r.choice(alpha) for _ in range(r.randint(0, 8)))
@@ -1421,6 +1421,8 @@ def c19_keywords(ctx):
                     reqs.append(("match_md", [kind, ms, False, ind + "#" * depth + " " + k + ": deep title\n", 4]))
             for title in ("see ticket #", "#", "x ##", "C#", "a # b", "## x ##", "x #\t"):   # a title is the trimmed rest, '#' included
                 reqs.append(("match_md", [kind, ms, False, "## " + k + ": " + title + "\n", 4]))
+            for title in (":", "::", ":Billing::Invoices", ": x", "x:", " :y: ", ":\t:"):     # ... and colons: only the keyword's own colon is taken
+                reqs.append(("match_md", [kind, ms, False, "# " + k + ":" + title + "\n", 4]))
             reqs.append(("match_md", [kind, ms, False, "##" + k + ": no blank\n", 4]))
             reqs.append(("match_md", [kind, ms, False, "##\t" + k + ":tab\r\n", 4]))
             reqs.append(("match_md", [kind, ms, False, k + ": no header prefix\n", 4]))
@@ -2507,7 +2509,7 @@ def o_very_long_lines(ctx):
         if "ok" not in t or len(t["ok"].splitlines()) != src.count("\n") + 1:
             return {"what": "the token listing of a document with long lines does not have one row per line and one for the end of file"}
         return None
-    return oracle("very-long-lines", [65535, 65536, 65537, 70000, 140000], check, describe=lambda n: "lines of %d characters" % n)
+    return oracle("very-long-lines", [65535, 65536, 65537, 70000, 140000, (1 << 20) + 5, (1 << 22) + 5, (1 << 23) + 1], check, describe=lambda n: "lines of %d characters" % n)
 
 
 for _pid in ("C03", "C04", "C18"):
@@ -3504,3 +3506,353 @@ for _pid, _pj in (("C01", _typed_outcome), ("C02", lambda x, req=None: outcome(x
 for _pid, _pk in (("C06", pk_sources), ("C07", pk_steps), ("C08", pk_tags), ("C09", pk_interp), ("C10", pk_types), ("C11", pk_ids)):
     P.PROPS[_pid]["streams"].append(entry_matrix(_pid, pickles=_pk))
 P.PROPS["C17"]["streams"].append(entry_matrix("C17"))
+
+
+# ---------------------------------------------------------------- round 15: the process environment, exception paths, other shapes of input
+_ENV_SCRIPT = r'''
+import sys, json, os, tempfile
+from gherkin.parser import Parser
+from gherkin.pickles.compiler import Compiler
+from gherkin.stream.gherkin_events import GherkinEvents
+from gherkin.stream.source_events import SourceEvents
+from gherkin.token_matcher_markdown import GherkinInMarkdownTokenMatcher
+from gherkin.token_formatter_builder import TokenFormatterBuilder
+from gherkin.errors import CompositeParserException, ParserException
+import gherkin.dialect as GD
+inp = json.loads(sys.stdin.read())
+def guarded(f):
+    try:
+        return f()
+    except CompositeParserException as e:
+        return {"errors": [str(x) for x in e.errors]}
+    except ParserException as e:
+        return {"errors": [str(e)]}
+    except Exception as e:
+        return {"foreign": type(e).__name__ + ": " + str(e)[:200]}
+def one(src):
+    def f():
+        d = Parser().parse(src)
+        d["uri"] = "u"
+        return {"ast": d, "pickles": Compiler().compile(d)}
+    return guarded(f)
+out = {"strings": [one(s) for s in inp["docs"]]}
+tmp = tempfile.mkdtemp()
+paths = []
+for i, s in enumerate(inp["docs"]):
+    pth = os.path.join(tmp, "d%d.feature" % i)
+    with open(pth, "w", encoding="utf8", newline="") as f:
+        f.write(s)
+    paths.append(pth)
+out["paths"] = [one(p) for p in paths]
+out["tokens"] = [guarded(lambda p=p: Parser(TokenFormatterBuilder()).parse(p)) for p in paths]
+def stream():
+    ge = GherkinEvents(GherkinEvents.Options(print_source=True, print_ast=True, print_pickles=True))
+    envs = []
+    for ev in SourceEvents(paths).enum():
+        envs.extend(ge.enum(ev))
+    return json.loads(json.dumps(envs).replace(json.dumps(tmp)[1:-1], "TMP"))
+out["stream"] = guarded(stream)
+out["md"] = guarded(lambda: Parser().parse(inp["md"], GherkinInMarkdownTokenMatcher("en")))
+out["table"] = GD.DIALECTS == json.load(open(inp["master"], encoding="utf8"))
+for pth in paths:
+    os.remove(pth)
+os.rmdir(tmp)
+sys.stdout.write(json.dumps(out))
+'''
+
+
+def o_environment_matrix(ctx):
+    """nothing depends on the process environment: fresh interpreters started under the C locale (no UTF-8 mode, no locale
+    coercion), with -O, with -OO give, for documents passed as strings, read by path, streamed from files, listed as tokens
+    and written in Markdown, byte for byte what the default interpreter gives -- and load the same dialect table"""
+    import subprocess
+    from common import REPO
+    docs = ["# language: fr\n@é @t\nFonctionnalité: café \U0001F600\n  déjà vu\n\n  Contexte:\n    Soit un élève\n      | ça | là |\n  Plan du scénario: o <a>\n    Quand <a> à l'œuvre\n      \"\"\"md\n      naïve <a>\n      \"\"\"\n    Exemples:\n      | a |\n      | ü |\n",
+            "Feature: f\n  Background:\n    Given b\n      | x | y |\n  Rule: r\n    @s\n    Scenario Outline: o\n      Given <a>\n        ```\n        <a> \\`\\`\\`\n        ```\n      And c\n        \"\"\"\n        second\n        \"\"\"\n      And d\n        ```\n        third\n        ```\n      Examples:\n          indented description after doc strings\n        | a |\n        | 1 |\n        | 2 |\n\n  Rule: q\n    Example: e\n      * star\r\n",
+            "Feature: bad\n  Scenario: s\n    Given g\n      | a |\n      | b | c |\n    oops é\n  @x y\n",
+            "# only 日本語\n", ""]
+    md = "# Feature: f\n\n## Scenario: s\n\n* Given a\n  | a |\n  |---|\n  | 1 |\n\n`@t`\n## Scenario: t\n- When b\n"
+    inp = json.dumps({"docs": docs, "md": md, "master": os.path.join(REPO, "gherkin-languages.json")})
+    base_env = dict(os.environ, PYTHONPATH=os.path.join(REPO, "python"), PYTHONDONTWRITEBYTECODE="1", PYTHONHASHSEED="0")
+    variants = {"default": ([], {}),
+                "C locale": ([], {"LC_ALL": "C", "LANG": "C", "PYTHONUTF8": "0", "PYTHONCOERCECLOCALE": "0"}),
+                "-O": (["-O"], {}), "-OO": (["-OO"], {}), "POSIX locale": (["-X", "utf8=0"], {"LC_ALL": "POSIX", "LANG": "POSIX", "PYTHONCOERCECLOCALE": "0"})}
+    outs = {}
+    for name, (flags, env) in variants.items():
+        try:
+            pr = subprocess.run([sys.executable] + flags + ["-c", _ENV_SCRIPT], input=inp, capture_output=True, text=True, env=dict(base_env, **env), timeout=600)
+            outs[name] = pr.stdout if pr.returncode == 0 else "exit %d: %s" % (pr.returncode, pr.stderr[-400:])
+        except subprocess.TimeoutExpired:
+            outs[name] = None       # a busy machine is not a finding
+    base = outs.get("default")
+
+    def check(name):
+        o = outs[name]
+        if o is None or base is None:
+            return None
+        if name == "default":
+            try:
+                b = json.loads(o)
+            except Exception:
+                return {"what": "the default interpreter failed on the battery: " + o[:300]}
+            if not b["table"]:
+                return {"what": "the loaded dialect table differs from the master table"}
+            if canon(b["strings"]) != canon(b["paths"]):
+                return {"what": "a document read by path parses differently from the same text passed as a string"}
+            return None
+        if o != base:
+            try:
+                a, b = json.loads(o), json.loads(base)
+                part = [k for k in b if canon(a.get(k)) != canon(b[k])]
+                detail = canon(a.get(part[0]))[:300] if part else ""
+            except Exception:
+                part, detail = ["(no output)"], o[:300]
+            return {"what": "results under %s differ from those of the default interpreter (%s)" % (name, ", ".join(part)), "got": detail}
+        return None
+    return oracle("environment-matrix", list(variants), check, describe=lambda n: n)
+
+
+for _pid in sorted(P.PROPS):
+    P.PROPS[_pid]["streams"].append(o_environment_matrix)
+
+
+def o_compile_other_inputs(ctx):
+    """Compiler.compile on documents that did not come straight from the parser, and around failures: (a) an AST that went
+    through JSON (equal, not identical, strings) gives the same pickles; (b) the children of a feature or a rule in any
+    arrangement (a scenario after a rule, backgrounds anywhere) are compiled in the order they are listed, against the
+    model; (c) after a compile that raised part-way (an id generator that fails at its k-th call), the same AST object
+    is unchanged and compiles, with a fresh or with the same compiler, to what a copy taken before compiles to; (d) the
+    input AST is never modified"""
+    import copy as _copy
+    impl = impl_mod()
+    srcs = ["@f\nFeature: f\n  Background:\n    Given b\n      | t |\n    And b2\n  @s\n  Scenario: one\n    And first\n    But second\n  Scenario Outline: o <a>\n    * <a>\n    @e\n    Examples:\n      | a |\n      | 1 |\n      | 2 |\n  @r\n  Rule: r\n    Background:\n      And rb\n        \"\"\"\n        doc\n        \"\"\"\n    @rs\n    Example: e\n      Then t\n  Rule: q\n    Scenario: last\n      When w\n",
+            "# language: fr\nFonctionnalité: f\n  Scénario: s\n    Soit a\n    Et b\n    Mais c\n"]
+    docs = []
+    for s in srcs:
+        r = impl.parse(False, "en", s)
+        docs.append(r["ok"])
+    rr = rng("c06other")
+    items = [("json", i, None) for i in range(len(docs))]
+    for i in range(len(docs)):
+        for _ in range(S.n_for(8, 60)):
+            items.append(("arrange", i, rr.random()))
+    items += [("raise", i, k) for i in range(len(docs)) for k in range(0, 14)]
+
+    class Failing:
+        def __init__(self, k):
+            self.n, self.k = 100, k
+
+        def get_next_id(self):
+            if self.n - 100 == self.k:
+                raise RuntimeError("id generator failed")
+            self.n += 1
+            return str(self.n - 1)
+
+    def comp(c, g, doc):
+        g.n = 100
+        d = doc
+        return canon(c.compile(d))
+
+    def check(it):
+        kind, i, arg = it
+        doc = _copy.deepcopy(docs[i])
+        doc["uri"] = "u"
+        pristine = _copy.deepcopy(doc)
+        g0 = impl.CountingIdGen()
+        want = comp(impl.Compiler(g0), g0, _copy.deepcopy(pristine))
+        if kind == "json":
+            g = impl.CountingIdGen()
+            got = comp(impl.Compiler(g), g, json.loads(json.dumps(doc)))
+            if got != want:
+                return {"what": "an AST that went through JSON compiles to other pickles", "want": want[:300], "got": got[:300]}
+            return None
+        if kind == "arrange":
+            r2 = rng("arr%r" % arg)
+            f = doc.get("feature")
+            if f:
+                r2.shuffle(f["children"])
+                for ch in f["children"]:
+                    if "rule" in ch:
+                        r2.shuffle(ch["rule"]["children"])
+            req = ("compile", ["u", {k: v for k, v in doc.items() if k != "uri"}, 100])
+            m = run_model([req])[0]
+            im = impl.compile_doc("u", {k: v for k, v in doc.items() if k != "uri"}, 100)
+            if canon(m) != canon(im):
+                return {"what": "an AST whose children are listed in another arrangement compiles differently from the model", "model": canon(m)[:300], "impl": canon(im)[:300]}
+            return None
+        g = Failing(arg)
+        c = impl.Compiler(g)
+        try:
+            c.compile(doc)
+            return None                      # the k-th id was never asked for
+        except RuntimeError:
+            pass
+        if canon(doc) != canon(pristine):
+            return {"what": "the input AST is left modified by a compile that raised", "k": arg}
+        g1 = impl.CountingIdGen()
+        got = comp(impl.Compiler(g1), g1, doc)
+        if got != want:
+            return {"what": "an AST compiles differently after an earlier compile of it raised part-way", "want": want[:300], "got": got[:300]}
+        g.k = 10 ** 9
+        g.n = 100
+        got2 = canon(c.compile(_copy.deepcopy(pristine)))
+        if got2 != want:
+            return {"what": "a compiler gives other pickles after one of its compiles raised part-way", "want": want[:300], "got": got2[:300]}
+        return None
+    return oracle("compile-other-inputs", items, check, describe=lambda it: [it[0], it[1], it[2]])
+
+
+for _pid in ("C06", "C07", "C08", "C09", "C10", "C11", "C15"):
+    P.PROPS[_pid]["streams"].append(o_compile_other_inputs)
+
+
+def o_stream_usage(ctx):
+    """one GherkinEvents object used in the ways its interface allows: the options object changed between sources; many
+    tagged sources with print_ast off (every AST is dropped before the next is parsed); two enum() generators drained
+    alternately; sources handled on different threads, one after the other -- ids stay distinct, every pickle's tags, uri
+    and references are those of its own document"""
+    import threading
+    impl = impl_mod()
+    from gherkin.stream.gherkin_events import GherkinEvents
+
+    def doc(i):
+        return "@f%d @g\nFeature: f%d\n  @s%d\n  Scenario: s\n    Given g%d\n  @o%d\n  Scenario Outline: o\n    Given <a>\n    @e%d\n    Examples:\n      | a |\n      | %d |\n      | x |\n" % ((i,) * 7)
+
+    def src(i):
+        return {"source": {"uri": "u%d" % i, "data": doc(i), "mediaType": "text/x.cucumber.gherkin+plain"}}
+
+    def expect_tags(i):
+        return [["@f%d" % i, "@g", "@s%d" % i]] + [["@f%d" % i, "@g", "@o%d" % i, "@e%d" % i]] * 2
+
+    def verify(envs, n_sources):
+        ids = []
+        P.walk(envs, lambda p_, k, v: ids.append(v) if k == "id" else None)
+        if len(set(ids)) != len(ids):
+            return "an id occurs twice in one stream"
+        by_uri = {}
+        for e in envs:
+            if "pickle" in e:
+                by_uri.setdefault(e["pickle"]["uri"], []).append([t["name"] for t in e["pickle"]["tags"]])
+        for i in range(n_sources):
+            if by_uri.get("u%d" % i) != expect_tags(i):
+                return "the pickles of source u%d carry tags %r" % (i, by_uri.get("u%d" % i))
+        return None
+    items = ["flip", "no-ast", "alternate", "threads"]
+
+    def check(kind):
+        if kind == "flip":
+            opts = GherkinEvents.Options(print_source=False, print_ast=True, print_pickles=False)
+            ge = GherkinEvents(opts)
+            envs = list(ge.enum(src(0)))
+            opts.print_pickles = True
+            envs += list(ge.enum(src(1)))
+            opts.print_ast = False
+            envs += list(ge.enum(src(2)))
+            ids = []
+            P.walk(envs, lambda p_, k, v: ids.append(v) if k == "id" else None)
+            P.walk(envs, lambda p_, k, v: ids.extend(v) if k == "astNodeIds" and False else None)
+            if len(set(ids)) != len(ids):
+                return {"what": "an id occurs twice in a stream whose options were changed between sources"}
+            return None
+        if kind == "no-ast":
+            ge = GherkinEvents(GherkinEvents.Options(print_source=False, print_ast=False, print_pickles=True))
+            n = S.n_for(40, 300)
+            envs = []
+            for i in range(n):
+                envs.extend(ge.enum(src(i)))
+            bad = verify(envs, n)
+            return {"what": bad + " (print_ast off, %d sources)" % n} if bad else None
+        if kind == "alternate":
+            ge = GherkinEvents(GherkinEvents.Options(print_source=True, print_ast=True, print_pickles=True))
+            its = [ge.enum(src(i)) for i in range(3)]
+            envs, live = [], list(its)
+            while live:
+                for it in list(live):
+                    try:
+                        envs.append(next(it))
+                    except StopIteration:
+                        live.remove(it)
+            for e in envs:
+                if "gherkinDocument" in e and e["gherkinDocument"]["feature"]["name"] != "f" + e["gherkinDocument"]["uri"][1:]:
+                    return {"what": "a gherkinDocument envelope carries the uri of another source when generators are drained alternately"}
+            by = {}
+            for e in envs:
+                if "pickle" in e:
+                    by.setdefault(e["pickle"]["uri"], []).append([t["name"] for t in e["pickle"]["tags"]])
+            for i in range(3):
+                if by.get("u%d" % i) != expect_tags(i):
+                    return {"what": "pickles carry another source's uri or tags when generators are drained alternately", "got": by.get("u%d" % i)}
+            return None
+        ge = GherkinEvents(GherkinEvents.Options(print_source=False, print_ast=True, print_pickles=True))
+        envs = []
+        for i in range(4):
+            t = threading.Thread(target=lambda i=i: envs.extend(ge.enum(src(i))))
+            t.start()
+            t.join(120)
+        bad = verify(envs, 4)
+        if bad:
+            return {"what": bad + " (each source handled on its own thread, one after the other)"}
+        g = impl.IdGenerator()
+        res = {}
+        t = threading.Thread(target=lambda: res.update(ast=impl.Parser(impl.AstBuilder(g)).parse(doc(0))))
+        t.start()
+        t.join(120)
+        ast = res.get("ast")
+        if ast is None:
+            return {"what": "a parse on a worker thread did not return"}
+        ast["uri"] = "u0"
+        ps = impl.Compiler(g).compile(ast)
+        ids = []
+        P.walk([ast, ps], lambda p_, k, v: ids.append(v) if k == "id" else None)
+        if len(set(ids)) != len(ids):
+            return {"what": "ids repeat when one generator is used by a parse on a worker thread and a compile on the main thread"}
+        return None
+    return oracle("stream-usage", items, check, describe=lambda k: k)
+
+
+for _pid in ("C06", "C08", "C11", "C15", "C17"):
+    P.PROPS[_pid]["streams"].append(o_stream_usage)
+
+
+for _pid in ("C16", "C01"):
+    P.PROPS[_pid]["streams"].append(o_very_long_lines)
+for _pid in ("C14", "C01"):
+    P.PROPS[_pid]["streams"].append(o_call_isolation)
+
+
+def c05_folded_letters(ctx):
+    """a language header names a dialect with ASCII letters, '-' and '_' only: letters that Unicode case folding maps onto
+    ASCII ones (long s, Kelvin sign, dotless i, dotted I) do not make a header; the line is a comment"""
+    srcs = []
+    for name in ("\u017fk", "\u212a", "p\u0131", "\u0130t", "en\u017f", "\u017f", "s\u212a"):
+        for lead in ("", "\n\n", "# c\n"):
+            srcs.append(lead + "# language: %s\nFeature: f\n  Scenario: s\n    Given g\n" % name)
+            srcs.append(lead + "  #language:%s  \nFeature: f\n" % name)
+    return e2e("folded-letters-in-language-headers", srcs, P.p_whole, modes=(False, True), nontrivial=nt_accepted("ast"), exhaustive=True)
+
+
+P.PROPS["C05"]["streams"].append(c05_folded_letters)
+P.PROPS["C14"]["streams"].append(c05_folded_letters)
+
+
+def c12_private_characters(ctx):
+    """cells may hold any character: noncharacters (U+FDD0.., U+FFFE), private-use characters, NUL and other controls --
+    alone, doubled, next to escapes -- are read back as written (nothing is reserved as an internal marker)"""
+    odd = ["\ufdd0", "\ufdd1", "\ufdd2", "\ufdef", "\ufffe", "\uffff", "\ue000", "\uf8ff", "\U000f0000", "\U0010fffe", "\x01", "\x02", "\x7f", "\u0080"]
+    rows = []
+    for a in odd:
+        rows += ["| %s |" % a, "| %s%s | x |" % (a, a), "| a%s\\\\ | \\|%s |" % (a, a), "| %s\\n%s |" % (a, a), "| \\%s |" % a]
+        for b in odd[:4]:
+            rows.append("| %s%s | %s\\|%s |" % (a, b, b, a))
+    reqs = [("table_cells", [rw]) for rw in rows]
+    srcs = ["Feature: f\n  Scenario Outline: o\n    Given <h>\n      %s\n    Examples:\n      | h |\n      %s\n" % (rw, rw.split("|")[0] + "|" + rw.split("|")[1] + "|") for rw in rows[::3]]
+    c1 = differential("private-characters-in-cells", reqs, nontrivial=lambda q, r_: q[1][0][:40], classify=lambda q, r_: "row", exhaustive=True)
+    c2 = e2e("private-characters-in-tables", srcs, P.p_cells, nontrivial=nt_accepted("ast"), exhaustive=True)
+    c1.evaluations += c2.evaluations
+    c1.disagreements += c2.disagreements
+    c1.nontrivial |= c2.nontrivial
+    return c1
+
+
+P.PROPS["C12"]["streams"].append(c12_private_characters)
+P.PROPS["C09"]["streams"].append(c12_private_characters)
